@@ -6,6 +6,7 @@ import (
 	"math"
 	"unicode/utf8"
 
+	"github.com/freeconf/yang/fc"
 	"github.com/freeconf/yang/meta"
 	"github.com/freeconf/yang/val"
 )
@@ -122,6 +123,11 @@ func (check fieldConstraints) checkUnionItem(t *meta.Type, item val.Value) error
 			(member.Format().Single() == val.FmtBinary && item.Format().Single() == val.FmtString) {
 			// (the items of a list of binaries are kept as their base64 text)
 			err = check.checkType(member, item)
+		} else if other := unionItemAs(member, item); other != nil {
+			// the value was converted by the first member that could hold it, whatever that
+			// member's restrictions: 100 became an int8 for union { int8 1..10; int32 100..200 }
+			// and is a value of the second member all the same
+			err = check.checkType(member, other)
 		} else {
 			continue
 		}
@@ -132,7 +138,26 @@ func (check fieldConstraints) checkUnionItem(t *meta.Type, item val.Value) error
 			firstErr = err
 		}
 	}
+	if firstErr == nil {
+		// no member, at any depth, holds values of this kind: that does not satisfy the union
+		// (a union inside the union is asked the same way)
+		return fmt.Errorf("%w. %s is no value of a member of the union", fc.BadRequestError, item)
+	}
 	return firstErr
+}
+
+// unionItemAs gives item as a value of the member, nil when the member holds no such value
+func unionItemAs(member *meta.Type, item val.Value) val.Value {
+	// (numbers, text and booleans: a number is not taken for the value of an enum or the
+	// position of a bit here)
+	switch f := member.Format().Single(); f {
+	case val.FmtInt8, val.FmtInt16, val.FmtInt32, val.FmtInt64, val.FmtUInt8, val.FmtUInt16, val.FmtUInt32, val.FmtUInt64,
+		val.FmtDecimal64, val.FmtString, val.FmtBool:
+		if v, err := val.Conv(f, item.Value()); err == nil {
+			return v
+		}
+	}
+	return nil
 }
 
 func (check fieldConstraints) checkString(s string, t *meta.Type) error {
